@@ -26,6 +26,39 @@ def gen(chk, mpmath, rng):
         f = lambda x: sum((mp.mpf(c.numerator) / c.denominator) * x ** k for k, c in enumerate(cs))
         kind = rng.random()
         try:
+            if rng.random() < 0.18:
+                # analytic non-polynomial integrands with RATIONAL integrals, at higher precisions as well (these need the higher
+                # quadrature degrees): gamma-type integrals on [0, inf], algebraic tails on [1, inf], endpoint singularities on [0, 1]
+                p = rng.choice([53, 120, 150, 200, 300, 500]); mp.prec = p
+                which = rng.choice(["x^k e^-ax", "x^-s tail", "x^(m/n)", "x^k log x", "1/(x+c)^k tail"])
+                # Gauss-Legendre is documented for smooth integrands only: algebraic / logarithmic endpoint behaviour (also at
+                # infinity, after the interval transformation) is left to tanh-sinh
+                meth = rng.choice(["quad", "quadts"]) if which in ("x^(m/n)", "x^k log x", "x^-s tail") else rng.choice(["quad", "quadts", "quadgl"])
+                k = rng.randint(0, 6)
+                if which == "x^k e^-ax":
+                    aq = Fr(rng.randint(1, 6), rng.choice([1, 2]))
+                    aa = mp.mpf(aq.numerator) / aq.denominator
+                    got = getattr(mp, meth)(lambda x: x ** k * mp.exp(-aa * x), [0, mp.inf])
+                    exact = ex.div(ex.seqn("fact", k), ex.powi(ex.Qf(aq), k + 1))
+                elif which == "x^-s tail":
+                    sq = Fr(rng.randint(5, 12), 2)          # x^-3/2 decays too slowly to count as well-behaved (observed error ~ sqrt(eps) on the unchanged tree)
+                    ss = mp.mpf(sq.numerator) / sq.denominator
+                    got = getattr(mp, meth)(lambda x: x ** (-ss), [1, mp.inf])
+                    exact = ex.div(1, ex.sub(ex.Qf(sq), 1))
+                elif which == "x^(m/n)":
+                    eq_ = Fr(rng.randint(1, 7), rng.choice([2, 3, 4]))
+                    ee = mp.mpf(eq_.numerator) / eq_.denominator
+                    got = getattr(mp, meth)(lambda x: x ** ee, [0, 1])
+                    exact = ex.div(1, ex.add(ex.Qf(eq_), 1))
+                elif which == "x^k log x":
+                    got = getattr(mp, meth)(lambda x: x ** k * mp.log(x), [0, 1])
+                    exact = ex.neg(ex.div(1, ex.sq(ex.Z(k + 1))))
+                else:
+                    cq = Fr(rng.randint(1, 5)); kk = rng.randint(2, 5)
+                    got = getattr(mp, meth)(lambda x: 1 / (x + cq.numerator) ** kk, [0, mp.inf])
+                    exact = ex.div(1, ex.mul(kk - 1, ex.powi(ex.Qf(cq), kk - 1)))
+                yield ex.relabs_close(got, exact, 10, p), {"key": "analytic/%s/%s" % (which, meth), "k": k, "p": p, "what": "integral with a rational closed form differs from it by more than 2^(10-p)"}
+                continue
             if kind < 0.45:
                 meth = rng.choice(["quad", "quadts", "quadgl"])
                 pts = [A, B]
